@@ -83,4 +83,6 @@ var (
 	ErrQueueFull = errors.New("the io queue is full")
 
 	errQueueEmpty = errors.New("the io queue is empty")
+
+	errShmMetadataTooShort = errors.New("share memory metadata is shorter than the path lengths it declares")
 )
